@@ -443,7 +443,9 @@ pub fn build(spec: &ArchiveSpec) -> Result<Built, String> {
     let cd_end = w.b.len() as u64;
     let cd_size = cd_end - cd_start;
     let n = spec.entries.len() as u64;
-    let need64 = n > 0xFFFE || cd_size > 0xFFFFFFFE || (cd_start - base) > 0xFFFFFFFE;
+    // exactly 65535 entries (or a value of exactly 0xFFFFFFFF) in a classic end record is what CPython and
+    // this crate's writer emit; ZIP64 end records appear from 65536 on, or when the spec asks for them
+    let need64 = n > 0xFFFF || cd_size > 0xFFFFFFFF || (cd_start - base) > 0xFFFFFFFF;
     let mask = match spec.zip64_end {
         Some(m) => Some(m),
         None if need64 => Some([false; 3]),
@@ -470,11 +472,11 @@ pub fn build(spec: &ArchiveSpec) -> Result<Built, String> {
     w.u32(0x06054b50, "e_sig");
     w.u16(0, "e_disk");
     w.u16(0, "e_cddisk");
-    let cnt16 = if m[0] || n > 0xFFFE { 0xFFFF } else { n as u16 };
+    let cnt16 = if m[0] || n > 0xFFFF { 0xFFFF } else { n as u16 };
     w.u16(cnt16, "e_count_disk");
     w.u16(cnt16, "e_count");
-    w.u32(if m[1] || cd_size > 0xFFFFFFFE { 0xFFFFFFFF } else { cd_size as u32 }, "e_cdsize");
-    w.u32(if m[2] || (cd_start - base) > 0xFFFFFFFE { 0xFFFFFFFF } else { (cd_start - base) as u32 }, "e_cdoffset");
+    w.u32(if m[1] || cd_size > 0xFFFFFFFF { 0xFFFFFFFF } else { cd_size as u32 }, "e_cdsize");
+    w.u32(if m[2] || (cd_start - base) > 0xFFFFFFFF { 0xFFFFFFFF } else { (cd_start - base) as u32 }, "e_cdoffset");
     if spec.comment.len() > 65535 {
         return Err("spec not representable: comment too long".into());
     }
